@@ -23,6 +23,7 @@ class ProbeTable(object):
         self.fail_at = fail_at
         self.alias = alias
         self.pulls = 0
+        self.datapulls = 0
         self.iters = 0
         self.log = log
         self.name = name
@@ -47,6 +48,7 @@ class ProbeTable(object):
             if self.fail_at == i + 1:
                 raise InjectedFailure('row %d' % (i + 1))
             self.pulls += 1
+            self.datapulls += 1
             if self.log is not None:
                 self.log.append(('pull', self.name, itid, i + 1))
             yield r if self.alias else list(r)
